@@ -115,9 +115,11 @@ VV(d) == IF d.json /\ d.body.k = "obj" THEN d.body.o["v"] ELSE "-"
 VA(d) == IF d.json /\ d.body.k = "obj" THEN d.body.o["a"] ELSE "-"
 VRow(k, d) == [id |-> k, body |-> NoBody, xa |-> NoXa, vals |-> <<VV(d), d.xa["_s"].t, VA(d), d.xa["u"].t, d.xa["_t"].t>>]
 Indexed(d) == HasBody(d) \/ HasXattrs(d)
+(* a body that is flagged JSON but is not JSON (a caller error): what the map function makes of it is not specified *)
+BadJson(d) == HasBody(d) /\ d.json /\ d.body.k \in {"raw", "unk"}
 (* view rows in JSON collation order of the emitted key, then document id *)
 ViewSeq(ds) ==
-    LET S == {k \in Keys : Indexed(ds[k])}
+    LET S == {k \in Keys : Indexed(ds[k]) /\ ~BadJson(ds[k])}
         less(a, b) == \/ TokRank(VV(ds[a])) < TokRank(VV(ds[b]))
                       \/ (VV(ds[a]) = VV(ds[b]) /\ TokRank(ds[a].xa["_s"].t) < TokRank(ds[b].xa["_s"].t))
                       \/ (VV(ds[a]) = VV(ds[b]) /\ ds[a].xa["_s"].t = ds[b].xa["_s"].t /\ a = "k1") IN
@@ -317,12 +319,14 @@ Call(e) ==
         auxOn == \E i \in 1..Len(e.aux) : TRUE
         fAux ==
             IF ~auxOn /\ \A kd \in AuxKinds : auxs[c][kd] = <<>> THEN 0
+            ELSE IF \E k2 \in Keys : BadJson(newDocs[c][k2]) THEN 0
             ELSE Cardinality({kd \in AuxKinds \ {"viewcount"} : na[c][kd] # ExpectedAux(kd, newDocs[c])
                     /\ Fail(IF kd \in {"q-all", "q-v", "q-s"} THEN {"C19"} ELSE {"C12"}, e, <<"aux", kd, c>>,
                             BriefRows(ExpectedAux(kd, newDocs[c])), BriefRows(na[c][kd]))})
                  + F(CountOK(na[c]["viewcount"], newDocs[c]), {"C12"}, <<"aux", "viewcount", c>>, Len(ViewSeq(newDocs[c])), BriefRows(na[c]["viewcount"]))
         fFresh2 ==
             Cardinality({i \in 1..Len(e.aux) : e.aux[i].kind = "viewfresh"
+                /\ ~(\E k2 \in Keys : BadJson(newDocs[e.aux[i].c][k2]))
                 /\ (e.aux[i].err # "" \/ RowsOf(e.aux[i].rows) # ExpectedAux("viewfresh", newDocs[e.aux[i].c]))
                 /\ Fail({"C12"}, e, <<"aux", "viewfresh", e.aux[i].c>>, BriefRows(ExpectedAux("viewfresh", newDocs[e.aux[i].c])),
                         IF e.aux[i].err # "" THEN e.aux[i].err ELSE BriefRows(RowsOf(e.aux[i].rows)))})
